@@ -32,7 +32,8 @@ def flag (j : Json) (k : String) : Bool :=
 * `matrix`  `{names:[..],strict,pinned?}` → `{"rows":[one string per name, one character per column], "conv":[..], "conventional":[..]}`
 * `lex`     `{a}` → the split name and the class flags
 * `match`   `{v,expr}` → `{"r": "match"|"nomatch"|"M"|"I", "tokens":[..]}`
-* `latest`  `{names:[..]}` → `{"idx": n | null}` or `{"err": ..}` -/
+* `latest`  `{names:[..]}` → `{"idx": n | null}` or `{"err": ..}`
+* `stacks`  `{stacks:[[..]..],expr}` → `{"latest": [stack, version] | null | {"err"}, "matches": [[stack, version]..] | {"err"}}` -/
 def handle : Handler := fun j => do
   let op ← (← j.getObjVal? "op").getStr?
   let pinned := flag j "pinned"
@@ -70,6 +71,18 @@ def handle : Handler := fun j => do
     | .error e => pure (Json.mkObj [("err", e.name)])
     | .ok none => pure (Json.mkObj [("idx", Json.null)])
     | .ok (some i) => pure (Json.mkObj [("idx", Json.num i)])
+  | "stacks" =>
+    let stacks ← (← jarr j "stacks").mapM fun st => do
+      (← st.getArr?).toList.mapM fun v => do pure (Str.ofString (← v.getStr?))
+    let e ← jstr j "expr"
+    let lat := match latestAcross stacks with
+      | .error er => Json.mkObj [("err", er.name)]
+      | .ok none => Json.null
+      | .ok (some (i, v)) => Json.arr #[Json.num i, ofStr v]
+    let mat := match matchesAcross e stacks with
+      | .error er => Json.mkObj [("err", er.name)]
+      | .ok l => Json.arr (l.map fun (i, v) => Json.arr #[Json.num i, ofStr v]).toArray
+    pure (Json.mkObj [("latest", lat), ("matches", mat)])
   | _ => throw s!"c10: unknown op {op}"
 
 end EupsModel.Drv.C10
